@@ -1,4 +1,91 @@
 import Reduino.Lang.Bind
 /- helper lemmas for Props/C08.lean -/
 namespace Reduino.Lemmas.C08
+open Reduino.Lang.Bind
+
+/-- every filter of a list is one of its enumerated sublists -/
+theorem mem_sublists_of_filter (p : String → Bool) (l : List String) : l.filter p ∈ sublists l := by
+  induction l with
+  | nil => simp [sublists]
+  | cons x rest ih =>
+    simp only [sublists, List.mem_flatMap]
+    refine ⟨rest.filter p, ih, ?_⟩
+    by_cases hx : p x = true
+    · simp [hx]
+    · simp [hx]
+
+/-- the provided parameters do not depend on keyword order, as a set -/
+theorem provided_contains_perm (sig : Sig) (n : Nat) (k1 k2 : List String) (h : k1.Perm k2) (a : String) :
+    (provided sig ⟨n, k1⟩).contains a = (provided sig ⟨n, k2⟩).contains a := by
+  unfold provided positional
+  exact (h.append_left _).contains_eq
+
+theorem pyAccepts_kw_perm (sig : Sig) (n : Nat) (k1 k2 : List String) (h : k1.Perm k2) :
+    pyAccepts sig ⟨n, k1⟩ = pyAccepts sig ⟨n, k2⟩ := by
+  have h5 : (sig.all fun p => p.hasDefault || (provided sig ⟨n, k1⟩).contains p.name) =
+      (sig.all fun p => p.hasDefault || (provided sig ⟨n, k2⟩).contains p.name) := by
+    congr 1
+    funext p
+    rw [provided_contains_perm sig n k1 k2 h]
+  have h3 : decide k1.Nodup = decide k2.Nodup := decide_eq_decide.2 h.nodup_iff
+  unfold pyAccepts
+  simp only [positional] at *
+  rw [h5, h3, h.all_eq, h.all_eq]
+
+/-- the facts about an accepted call used for completeness -/
+theorem pyAccepts_facts (sig : Sig) (s : Shape) (h : pyAccepts sig s = true) :
+    s.npos ≤ (posParams sig).length ∧ (∀ k ∈ s.kws, k ∈ sig.map (·.name)) ∧ s.kws.Nodup ∧
+      (∀ k ∈ s.kws, ((posParams sig).take s.npos).contains k = false) := by
+  unfold pyAccepts positional at h
+  simp only [Bool.and_eq_true, decide_eq_true_eq, List.all_eq_true] at h
+  obtain ⟨⟨⟨⟨h1, h2⟩, h3⟩, h4⟩, _⟩ := h
+  refine ⟨h1, ?_, h3, ?_⟩
+  · intro k hk
+    have := h2 k hk
+    rw [List.any_eq_true] at this
+    obtain ⟨p, hp, hpk⟩ := this
+    rw [List.mem_map]
+    exact ⟨p, hp, eq_of_beq hpk⟩
+  · intro k hk
+    have := h4 k hk
+    simpa using this
+
+theorem allShapes_complete (sig : Sig) (hn : (sig.map (·.name)).Nodup) (s : Shape) (h : pyAccepts sig s = true) :
+    ∃ s' ∈ allShapes sig, s'.npos = s.npos ∧ s'.kws.Perm s.kws := by
+  obtain ⟨h1, h2, h3, h4⟩ := pyAccepts_facts sig s h
+  let cand := (sig.map (·.name)).filter fun n => !((posParams sig).take s.npos).contains n
+  refine ⟨⟨s.npos, cand.filter (fun k => decide (k ∈ s.kws))⟩, ?_, rfl, ?_⟩
+  · unfold allShapes
+    rw [List.mem_flatMap]
+    refine ⟨s.npos, List.mem_range.2 (by omega), ?_⟩
+    rw [List.mem_map]
+    exact ⟨_, mem_sublists_of_filter _ _, rfl⟩
+  · have hc : cand.Nodup := hn.filter _
+    refine (List.perm_ext_iff_of_nodup (hc.filter _) h3).2 ?_
+    intro a
+    constructor
+    · intro ha
+      have := (List.mem_filter.1 ha).2
+      simpa using this
+    · intro ha
+      refine List.mem_filter.2 ⟨List.mem_filter.2 ⟨h2 a ha, ?_⟩, by simpa using ha⟩
+      rw [h4 a ha]
+      rfl
+
+theorem tableAgrees_iff (sig : Sig) (t : Table) (h : tableAgrees sig t = true) (s : Shape) (hs : s ∈ allShapes sig)
+    (ha : pyAccepts sig s = true) : ∃ r ∈ t, r.shape = s ∧ (r.rejected = true ∨ r.unseen = []) := by
+  unfold tableAgrees at h
+  rw [List.all_eq_true] at h
+  have := h s hs
+  rw [ha] at this
+  simp only [Bool.not_true, Bool.false_or] at this
+  split at this
+  · rename_i r hr
+    refine ⟨r, List.mem_of_find?_eq_some hr, ?_, ?_⟩
+    · have := List.find?_some hr
+      exact eq_of_beq this
+    · rw [Bool.or_eq_true, List.isEmpty_iff] at this
+      exact this
+  · exact absurd this (by decide)
+
 end Reduino.Lemmas.C08
